@@ -248,6 +248,54 @@ class Harness:
             if not ok:
                 self.failed_concrete.append(name)
 
+    def induct(self, name, P, n, base=0):
+        """Induction over a symbolic row index: proves P(base) and, for a fresh k with base < k < n, P(k-1) => P(k); when both are
+        discharged, 'for all base <= k < n: P(k)' is added to the path as a lemma (symbolic mode only)."""
+        if not self.symbolic:
+            return
+        c = self.ctx
+        nz = n.z if isinstance(n, SymInt) else z3.IntVal(int(n))
+        before = len(self.results)
+        self._check_sym(name + ".base", sym.Implies(SymBool(nz > base), P(SymInt(z3.IntVal(base)))), None)
+        k = z3.Int(c.fresh_name("ind"))
+        s = c.solver
+        s.push()
+        s.add(z3.And(k > base, k < nz))
+        s.add(to_z3_bool(P(SymInt(k - 1))))
+        s.set("timeout", c.timeout_ms)
+        s.add(z3.Not(to_z3_bool(P(SymInt(k)))))
+        t0 = time.time()
+        r = s.check()
+        c.queries += 1
+        c.solver_s += time.time() - t0
+        s.pop()
+        s.set("timeout", 3000)
+        self.results.append((name + ".step", "discharged" if r == z3.unsat else ("sat" if r == z3.sat else "unknown"), None, f"{time.time() - t0:.3f}s"))
+        if all(x[1] == "discharged" for x in self.results[before:]):
+            q = z3.Int(c.fresh_name("q"))
+            c.add_axiom(z3.ForAll([q], z3.Implies(z3.And(q >= base, q < nz), to_z3_bool(P(SymInt(q))))))
+
+    def must_not_prove(self, name, cond):
+        """Vacuity canary: `cond` is NOT a consequence of the code's behaviour, so a solver that proves it on this path is working from
+        contradictory assumptions (symbolic mode only).  Proved => the obligation is reported undecided (vacuous), never as held."""
+        if not self.symbolic:
+            return
+        c = self.ctx
+        s = c.solver
+        s.push()
+        s.set("timeout", min(c.timeout_ms, 5000))
+        s.add(z3.Not(to_z3_bool(cond)))
+        t0 = time.time()
+        r = s.check()
+        c.queries += 1
+        c.solver_s += time.time() - t0
+        s.pop()
+        s.set("timeout", 3000)
+        if r == z3.unsat:
+            self.results.append((name, "unknown", None, "VACUOUS: the path assumptions prove a claim that is false in general"))
+        else:
+            self.results.append((name, "discharged", None, f"canary not provable ({r})"))
+
     def derive(self, name, goal, from_, opaque=()):
         """Explicit proof step: `goal` follows from the listed facts ALONE (each of which must already hold on this path),
         with the `opaque` sub-terms generalised to fresh symbols.  Keeps the query independent of the rest of the path."""
